@@ -69,3 +69,55 @@ theorem roundtrip_struct (env : Env) (hE : envOK env) (name : Bytes) (v : Val) (
   omega
 
 end GnoVerif.C20
+
+namespace GnoVerif.C20
+
+/-- a decidable sufficient condition for `envOK`. -/
+def envOKb (env : Env) : Bool :=
+  env.all fun e => match e.defn with
+    | .struct fs _ => fieldsSorted 0 fs
+    | .alias _ => true
+
+theorem envOK_of_b {env : Env} (h : envOKb env = true) : envOK env := by
+  intro name ent hfind
+  have hmem : ent ∈ env := List.mem_of_find?_eq_some hfind
+  unfold envOKb at h
+  rw [List.all_eq_true] at h
+  have := h ent hmem
+  cases hd : ent.defn
+  · simp only [hd] at this ⊢; exact this
+  · trivial
+
+/-- the struct decoder rejects whatever is left after the last declared field
+("unknown field number … / trailing bytes"). -/
+theorem decFields_trailing_rejected (env : Env) (k : Nat) (b : UInt8) (bz : Bytes) (last depth : Nat)
+    (acc : List Val) (n : Nat) : decFields env (k + 1) [] (b :: bz) last depth acc n = none := by
+  simp [decFields]
+
+/-- the struct decoder rejects a field number that does not increase (duplicate or
+out-of-order field), for a non-list field that the key matches. -/
+theorem decFields_out_of_order_rejected (env : Env) (k : Nat) (f : FieldD) (fs : List FieldD) (bz : Bytes)
+    (last depth : Nat) (acc : List Val) (n : Nat) (t kn : Nat)
+    (hnl : isUnpackedList env f.td = false) (hne : bz ≠ [])
+    (hkey : decKeyRaw bz = some (f.num, t, kn)) (hlast : f.num ≤ last) :
+    decFields env (k + 1) (f :: fs) bz last depth acc n = none := by
+  have hemp : bz.isEmpty = false := by
+    cases bz with
+    | nil => exact absurd rfl hne
+    | cons _ _ => rfl
+  simp [decFields, hemp, hnl, hkey, hlast]
+
+/-- … and a lower-numbered (skipped) wire field that does not increase either. -/
+theorem decFields_skipped_out_of_order_rejected (env : Env) (k : Nat) (f : FieldD) (fs : List FieldD) (bz : Bytes)
+    (last depth : Nat) (acc : List Val) (n : Nat) (num t kn : Nat)
+    (hnl : isUnpackedList env f.td = false) (hne : bz ≠ [])
+    (hkey : decKeyRaw bz = some (num, t, kn)) (hlt : num < f.num) (hlast : num ≤ last) :
+    decFields env (k + 1) (f :: fs) bz last depth acc n = none := by
+  have hemp : bz.isEmpty = false := by
+    cases bz with
+    | nil => exact absurd rfl hne
+    | cons _ _ => rfl
+  have h1 : ¬ f.num < num := by omega
+  simp [decFields, hemp, hnl, hkey, h1, hlt, hlast]
+
+end GnoVerif.C20
